@@ -617,3 +617,39 @@ Proof.
   change (ex_pts) with ex_pts. unfold ex_pts at 1 2. cbn [length Nat.eqb negb].
   rewrite Rk. cbn [negb]. eexists _, _, _. reflexivity.
 Qed.
+
+(* ---------- equivariance (partial): moving / scaling the inputs maps optimal solutions to optimal solutions ----------
+   x' = s1 R1 x + t1, y' = s2 R2 y + t2. For EVERY candidate (c, R, t) the residual on the moved data equals s2^2 times the
+   residual of the pulled-back candidate on the original data; so the optimum on the moved data is the image of an optimum on
+   the original data under "the corresponding composition". That the RETURNED triple is that image additionally needs
+   uniqueness of the optimum (not proved): umeyama_equivariant_partial. *)
+Definition pull_c (s1 s2 c : R) : R := c * s1 / s2.
+Definition pull_R (R1 R2 Rm : M3R) : M3R := mm (mt R2) (mm Rm R1).
+Definition pull_t (s2 : R) (R2 Rm : M3R) (t1 t2 t : V3R) (c : R) : V3R :=
+  vscale (/ s2) (mv (mt R2) (vsub (vadd (vscale c (mv Rm t1)) t) t2)).
+
+Lemma resid_point_equivariant (s1 s2 c : R) (R1 R2 Rm : M3R) (t1 t2 t x y : V3R) : Orth R2 -> s2 <> 0 ->
+  nrm2 (vsub (apply_sim s2 R2 t2 y) (apply_sim c Rm t (apply_sim s1 R1 t1 x))) =
+  s2 * s2 * nrm2 (vsub y (apply_sim (pull_c s1 s2 c) (pull_R R1 R2 Rm) (pull_t s2 R2 Rm t1 t2 t c) x)).
+Proof.
+  intros O Hs.
+  assert (E : vsub (apply_sim s2 R2 t2 y) (apply_sim c Rm t (apply_sim s1 R1 t1 x)) =
+              vscale s2 (mv R2 (vsub y (apply_sim (pull_c s1 s2 c) (pull_R R1 R2 Rm) (pull_t s2 R2 Rm t1 t2 t c) x)))).
+  { unfold apply_sim, pull_c, pull_R, pull_t.
+    rewrite !mv_vsub, !mv_vadd, !mv_vscale, !mv_mm, !mv_vsub, !mv_vadd, !mv_vscale.
+    destruct O as [_ O2].
+    assert (K : forall v, mv R2 (mv (mt R2) v) = v) by (intros v; rewrite <- mv_mm, O2; apply mv_I).
+    rewrite !K.
+    destruct (mv R2 y) as [a1 a2 a3], (mv Rm (mv R1 x)) as [b1 b2 b3], (mv Rm t1) as [c1 c2 c3], t as [d1 d2 d3], t2 as [e1 e2 e3].
+    lin_unfold. f_equal; field; exact Hs. }
+  rewrite E. set (w := vsub y _). transitivity (s2 * s2 * nrm2 (mv R2 w)).
+  - destruct (mv R2 w) as [a b d]. lin_unfold. ring.
+  - now rewrite nrm2_mv_orth.
+Qed.
+Theorem umeyama_equivariant_partial (s1 s2 c : R) (R1 R2 Rm : M3R) (t1 t2 t : V3R) (x y : list V3R) : Orth R2 -> s2 <> 0 ->
+  resid c Rm t (map (apply_sim s1 R1 t1) x) (map (apply_sim s2 R2 t2) y) =
+  s2 * s2 * resid (pull_c s1 s2 c) (pull_R R1 R2 Rm) (pull_t s2 R2 Rm t1 t2 t c) x y.
+Proof.
+  intros O Hs. unfold resid. revert y. induction x as [|a x IH]; intros [|b y]; cbn [map combine tsum fst snd]; rnum; try ring.
+  rewrite IH, resid_point_equivariant by assumption. ring.
+Qed.
